@@ -8,7 +8,7 @@ from checks.harness import meta
 PROPERTY = "C10"
 LEVEL = "proof"
 LEAN_MODULES = ["Exetera.Props.C10"]
-BASES = ["c03", "c04", "c08", "c09", "c14", "c16", "c17", "c06", "c05"]
+BASES = ["c03", "c04", "c08", "c09", "c14", "c16", "c17", "c06", "c05", "c19"]
 MODES = {"quick": ["bounds", "nojit"], "thorough": ["bounds", "nojit", "jit"], "search": ["bounds", "nojit"]}
 EXHAUSTIVE = {"quick": False, "thorough": False}
 TECHNIQUE = ("Lean 4: per kernel family, `no_oob_*` corollaries of the owning property's `= .ok` refinement theorems (models read and "
